@@ -41,7 +41,8 @@ static std::string bufhex(sb_trajectory_builder_t* b)
 SB_OP(bld)
 {
     sb_trajectory_builder_t b;
-    memset(&b, 0, sizeof(b));
+    // init must not depend on what the object held before: it is made on memory that is not zero-filled
+    memset(&b, 0xA5, sizeof(b));
     bool inited = false;
     for (size_t i = 2; i < t.size(); i++) {
         char k = t[i][0];
@@ -56,6 +57,14 @@ SB_OP(bld)
                 return;
         } else if (!inited) {
             add(out, "noinit");
+        } else if (k == 'R') {
+            // a successful init on a builder that is in use (not destroyed first): the builder starts afresh;
+            // the abandoned buffer is released here so that the run stays leak-free
+            sb_buffer_t old = b.buffer;
+            sb_error_t rc = sb_trajectory_builder_init(&b, (uint8_t)strtoul(a[0].c_str(), nullptr, 10), (uint8_t)strtoul(a[1].c_str(), nullptr, 10));
+            if (rc == SB_SUCCESS)
+                sb_buffer_destroy(&old);
+            add(out, std::to_string((int)rc) + ":" + bufhex(&b));
         } else if (k == 'J') {
             // a refused init (invalid scale) on a live builder: it must not change anything
             sb_error_t rc = sb_trajectory_builder_init(&b, (uint8_t)strtoul(a[0].c_str(), nullptr, 10), (uint8_t)strtoul(a[1].c_str(), nullptr, 10));
